@@ -115,6 +115,24 @@ WHAT = {
     'r4-C15-B': 'books.pop(book.upper()) now really evicts a book whose sheet is missing, names included',
     'r4-C19-A': 'AVERAGEIF averaged through the numpy path of SUMIF (FALSE counts as 0)',
     'r4-C19-B': 'VLOOKUP column index checked against len(vec) before the table is transposed',
+    'r5-C02-A': 'replace_empty fills blanks in place (x[b] = empty) instead of building a new array',
+    'r5-C02-B': 'U- and % registered with check_nan=False ("negation of a finite number is finite")',
+    'r5-C05-A': 'the same in-place replace_empty, found independently for C05',
+    'r5-C05-B': 'scalar fast path in wrap_ufunc: safe_eval(*args) when no argument is an ndarray',
+    'r5-C06-A': 'Ranges.__or__ pre-fills the cached value of the union from the cached values of its operands',
+    'r5-C06-B': 'Ranges.__sub__ splits each area against other.ranges only',
+    'r5-C08-A': 'compile folds formatted values and pops the filters of node records shared with the model',
+    'r5-C08-B': 'shrink_dsp(inputs, outputs) replaced by a reverse visit from the outputs',
+    'r5-C09-A': 'per-import cache of compiled functions keyed by formula text (the host cell is folded in)',
+    'r5-C09-B': 'export encoder tests isinstance(v, str) before isinstance(v, HexValue)',
+    'r5-C13-A': 'safe_eval of wrap_ufunc memoised with lru_cache (call form, inside the wrapper)',
+    'r5-C13-B': 'RANDBETWEEN: empty-range test moved into an input_parser, before the bounds are rounded',
+    'r5-C17-A': 'ExcelModel.__deepcopy__ re-creates the dispatcher without entering it in the memo',
+    'r5-C17-B': 'cells/books as class-level dicts, __getstate__ trimmed to dsp',
+    'r5-C18-A': 'for-else of the filter loop replaced by a `token is None` test; a rejected token stays bound',
+    'r5-C18-B': 'Number regex: [0-9] tidied to \\d (Unicode digits accepted)',
+    'r5-C20-A': 'base converters memoised with an untyped lru_cache (TRUE and 1 share a slot)',
+    'r5-C20-B': 'largest serial replaced by (datetime(9999,12,31) - DATE_ZERO).days, one less than Excel\'s',
 }
 FIRST1 = {
     "C01-A": "exit 2 (unrecognised rewrite)",
@@ -161,6 +179,7 @@ WHY_MISSED = {
     'C07-A': 'value-level graph predicate in inverse_references',
     'C19-A': 'value-level wildcard translation (listed as not decided for C19)',
     'C20-A': 'value-level calendar arithmetic',
+    'r5-C18-B': 'value-level and outside the stated assumption (regex languages are compared on ASCII): which Unicode digits int() accepts',
     'r2-C02-B': 'the operator core is built by a new factory the registry model cannot see through: C02 answers "cannot decide" (exit 2); which error code a numpy fast path yields is value-level',
     'r2-C05-B': 'value-level: result shape depends on a condition value; C11 answers "cannot decide" on the new variadic args_parser',
     'r2-C13-B': 'value-level arithmetic of the result of RANDBETWEEN',
@@ -178,7 +197,7 @@ def main():
     for p in sorted(glob.glob(os.path.join(HERE, 'seeded', '*', 'meta.json'))):
         m = json.load(open(p))
         metas[m['id']] = m
-    for rnd in (1, 2, 3, 4):
+    for rnd in (1, 2, 3, 4, 5):
         print('\n**Round %d**\n' % rnd)
         print('| seed | what was changed | first run | now: own check (rule) '
               '| now: other checks |')
